@@ -18,6 +18,8 @@ ACCEPT_PATH = ['pynetdicom2.asceprovider.AssociationAcceptor.accept',
 
 def run_case(res, case, attempt=0):
     from pynetdicom2 import applicationentity, dimsemessages
+    import time
+    t0 = time.monotonic()
     i, seed = case['index'], case['seed']
     r = rng(seed, 'c09-tcp', i)
     served_mask, ts_mask = r.randrange(1, 8), r.randrange(1, 16)
@@ -91,10 +93,10 @@ def run_case(res, case, attempt=0):
         try:
             server = Server('TCPSCP', 0, supported_ts=[t.decode() for t in supported])
             server.net = net
-            server.timeout = 5
+            server.timeout = 5 if not attempt else 30
             server.add_scp(service)
             with tcpnet.serving(server):
-                peer = tcpnet.RefPeer.connect(server.port)
+                peer = tcpnet.RefPeer.connect(server.port, timeout=5.0 if not attempt else 30.0)
                 try:
                     reply = peer.associate(contexts, called=b'TCPSCP', calling=b'REF-REQUESTOR',
                                            extra_subs=extra_subs)
@@ -126,7 +128,7 @@ def run_case(res, case, attempt=0):
                     cid = bad[0]
                     abstract = [a for c, a, t in contexts if c == cid][0]
                     before = len(calls)
-                    peer = tcpnet.RefPeer.connect(server.port)
+                    peer = tcpnet.RefPeer.connect(server.port, timeout=5.0 if not attempt else 30.0)
                     try:
                         peer.associate(contexts, called=b'TCPSCP', calling=b'REF-REQUESTOR',
                                            extra_subs=extra_subs)
@@ -147,7 +149,9 @@ def run_case(res, case, attempt=0):
     res.count('inject.lines-delayed', inj.get('hits', 0))
     if error is not None:
         import socket
-        if isinstance(error, (socket.timeout, TimeoutError)) and attempt < 2:
+        if attempt < 2 and time.monotonic() - t0 >= 4.0:
+            # (one side's 5 s time-out reaches the other as a closed connection: a failure that took that long
+            # is re-run alone, with patient time-outs, before it counts; a quick failure is no time-out)
             res.count('flaky-timeouts')
             return run_case(res, case, attempt + 1)
         res.violation('negotiation-raises:' + type(error).__name__, 'C09.tcp', '%s: %s: %s' % (
